@@ -31,14 +31,15 @@ def run(tier):
     if tier == "thorough":
         r = go(fast, [["--mode", "c05fixed", "--full", "--shard", "%d/%d" % (i, 8 * N)] for i in range(8 * N)], None, "fixedfull")
         exhaustive = not r.crashes and not r.timeouts
-    if tot.get("db.conv.zones", 0) < 600 or tot.get("conv.conversions", 0) < 100000 or tot.get("conv.fixed_instants", 0) < 1000000:
+    if tot.get("db.conv.zones", 0) < 600 or tot.get("conv.conversions", 0) < 100000 or tot.get("conv.fixed_instants", 0) < 1000000 \
+            or tot.get("conv.distant_pairs_beyond_2^31", 0) < 100000:
         v.inconclusive_because("deciding counters too low: %r" % tot)
     v.coverage.update({
         "evaluations": tot.get("conv.fixed_instants", 0) + tot.get("conv.instants", 0),
         "distinct_nontrivial": tot.get("fixed.conv.fixed_instants", 0) + tot.get("db.conv.instants", 0),
         "rule": "fixed offsets (OffsetDateTime and manual TimeZone, incl. a std+dst split): %s, restricted for the verdict to "
                 "instants where t+offset stays inside the int32 day arithmetic (the rest is C09's); round trip, fields vs int64 "
-                "civil oracle, Unix variants (+946684800 where representable), conversion to another offset, compareTo. Database "
+                "civil oracle, Unix variants (+946684800 where representable), conversion to another offset, compareTo with the same instant, the next second and the instant mirrored in the valid range under another offset (distances up to 2^32-1 s; the counters say how many pairs lie more than 2^31 s apart). Database "
                 "zones of both registries as plain and manager-created values: +-3 s around every transition, a 3-day grid, 200 "
                 "seeded instants, converted to two other database zones, a managed zone and a manual zone (also at the targets' "
                 "transitions): instant preserved, compareTo 0 / ordered. distinct = distinct (offset|zone, instant) cases on the "
